@@ -47,11 +47,11 @@ def toiAny : Any → Nat
   | .inr f => f.st.toi
 
 /-- facts about one `push` of the ObjRecv-backed object -/
-theorem push_facts (o : Obj) (p : Recv.Pkt) :
-    (push o p).1.st.toi = o.st.toi ∧ (push o p).1.st.fdtId = o.st.fdtId ∧
-    (o.st.fdtId = none → (push o p).2 = []) ∧
-    (WEv.complete ∈ (push o p).2 → (push o p).1.st.state = .completed) := by
-  unfold push
+theorem pushN_facts (o : Obj) (p : Recv.Pkt) :
+    (pushN o p).1.st.toi = o.st.toi ∧ (pushN o p).1.st.fdtId = o.st.fdtId ∧
+    (o.st.fdtId = none → (pushN o p).2 = []) ∧
+    (WEv.complete ∈ (pushN o p).2 → (pushN o p).1.st.state = .completed) := by
+  unfold pushN
   by_cases hf : o.fault = true
   · rw [if_pos hf]; exact ⟨rfl, rfl, fun _ => rfl, fun h => by simp at h⟩
   · rw [if_neg hf]
@@ -70,6 +70,46 @@ theorem push_facts (o : Obj) (p : Recv.Pkt) :
         rw [← wev_complete _ c hw]; exact List.mem_reverse.mp hc
       exact ObjRecv.push_complete_state params o.st (toPkt p) o.reach.inv o.reach.jinv o.reach.kr h
         (by rw [hl]; exact not_noComplete_of_mem l _ hcl)
+
+/-- facts about one push of a TOI-0 packet (`attachFdt` with the packet's own entry, then `push`) -/
+theorem push0_facts (o : Obj) (p : Recv.Pkt) :
+    (push0 o p).1.st.toi = o.st.toi ∧
+    (WEv.complete ∈ (push0 o p).2 → (push0 o p).1.st.state = .completed) := by
+  unfold push0
+  by_cases hf : o.fault = true
+  · rw [if_pos hf]; exact ⟨rfl, fun h => by simp at h⟩
+  · rw [if_neg hf]
+    split
+    · exact ⟨rfl, fun h => by simp at h⟩
+    · rename_i st1 b h
+      split
+      · exact ⟨rfl, fun h => by simp at h⟩
+      · rename_i st' h2
+        have hg1 := ObjRecv.attach_grows params o.st _ _ h
+        have hg2 := ObjRecv.push_grows params st1 (toPkt p) h2
+        refine ⟨by simp only []; rw [hg2.1, hg1.1], ?_⟩
+        intro hm
+        obtain ⟨l1, hl1⟩ := hg1.2
+        obtain ⟨l2, hl2⟩ := hg2.2
+        have hl : st'.out = (l2 ++ l1) ++ o.st.out := by rw [hl2, hl1, List.append_assoc]
+        simp only [] at hm ⊢
+        rw [newCalls_grow _ _ _ (l2 ++ l1) hl] at hm
+        obtain ⟨c, hc, hw⟩ := List.mem_map.mp hm
+        have hcl : ObjRecv.WCall.complete ∈ l2 ++ l1 := by
+          rw [← wev_complete _ c hw]; exact List.mem_reverse.mp hc
+        have hr := ObjRecv.reach_push params st1 (toPkt p) (ObjRecv.reach_attach params o.st _ _ o.reach h) h2
+        rcases hr.kr with hk | hk
+        · exact absurd hk (by rw [hl]; exact not_noComplete_of_mem (l2 ++ l1) _ hcl)
+        · exact hk
+
+theorem push_toi_full (o : Obj) (p : Recv.Pkt) : (push o p).1.st.toi = o.st.toi := by
+  unfold push
+  split
+  · exact (push0_facts o p).1
+  · exact (pushN_facts o p).1
+
+theorem push_eq_pushN (o : Obj) (p : Recv.Pkt) (hp : p.toi ≠ 0) : push o p = pushN o p := by
+  unfold push; rw [if_neg hp]
 
 theorem attach_facts (o : Obj) (id : Nat) (fdt : FdtAbs) :
     (attachFdt o id fdt).1.st.toi = o.st.toi ∧
@@ -106,21 +146,19 @@ def law : iface.Law :=
   { attached := attachedAny
     toi := toiAny
     new_attached := fun t mc => by
-      show attachedAny (if t = 0 then .inl (Mini.new t mc) else .inr (new t mc)) = false
-      split <;> rfl
+      rfl
     new_toi := fun t mc => by
-      show toiAny (if t = 0 then .inl (Mini.new t mc) else .inr (new t mc)) = t
-      split <;> rfl
+      rfl
     push_toi := fun o p => by
       cases o with
       | inl m => exact Mini.law.push_toi m p
-      | inr f => exact (push_facts f p).1
+      | inr f => exact push_toi_full f p
     push_attached := fun o p hp => by
       cases o with
       | inl m => exact Mini.law.push_attached m p hp
       | inr f =>
         show (push f p).1.st.fdtId.isSome = f.st.fdtId.isSome
-        rw [(push_facts f p).2.1]
+        rw [push_eq_pushN f p hp, (pushN_facts f p).2.1]
     push_silent := fun o p hp ha => by
       cases o with
       | inl m => exact Mini.law.push_silent m p hp ha
@@ -131,7 +169,8 @@ def law : iface.Law :=
           cases hfd : f.st.fdtId with
           | none => rfl
           | some i => rw [hfd] at this; simp at this
-        exact (push_facts f p).2.2.1 hn
+        rw [push_eq_pushN f p hp]
+        exact (pushN_facts f p).2.2.1 hn
     attach_toi := fun o id fdt => by
       cases o with
       | inl m => exact Mini.law.attach_toi m id fdt
@@ -167,7 +206,14 @@ theorem completeSound : iface.CompleteSound := by
   | inl m => exact Mini.completeSound m p hm
   | inr f =>
     show stateOf (push f p).1.st.state = .completed
-    rw [(push_facts f p).2.2.2 hm]
-    rfl
+    have hm' : WEv.complete ∈ (push f p).2 := hm
+    unfold push at hm' ⊢
+    split at hm'
+    · rename_i h0
+      rw [if_pos h0, (push0_facts f p).2 hm']
+      rfl
+    · rename_i h0
+      rw [if_neg h0, (pushN_facts f p).2.2.2 hm']
+      rfl
 
 end Flute.Recv.Full
